@@ -22,6 +22,7 @@ Parts
 from __future__ import annotations
 
 import copy
+import os
 
 from hypothesis import strategies as st
 
@@ -555,6 +556,168 @@ class CodeBlocks(Part):
         return None
 
 
+# -- invalid expressions without any text --------------------------------------
+
+EMPTY_SITES = [
+    '<p tal:content="">x</p>', '<p tal:content=" ">x</p>',
+    '<p tal:condition=" ">x</p>', "<p>${ }</p>", "<p>a ${  } b</p>",
+    '<p tal:content="1 | ">x</p>', '<p tal:content="not: ">x</p>',
+    '<p tal:define="v ">x</p>', '<p tal:define="a 1; v ">x</p>',
+    '<p tal:content="structure: ">x</p>', '<p tal:repeat="x ">x</p>',
+    '<p title="${ }">x</p>', '<p tal:replace="">x</p>',
+    '<p tal:content="python: ">x</p>', '<p tal:content="exists: ">x</p>',
+    '<p tal:switch="">x</p>',
+]
+
+
+class Empty(Part):
+    """Expressions that are invalid because there is nothing there (an empty
+    statement argument, ${ }, an empty pipe alternative, a prefix without an
+    operand): the error has no text to show, but both modes treat it like
+    every other invalid expression - strict construction fails; non-strict
+    construction succeeds and rendering raises that very ExpressionError
+    (message, offset, line and column) iff the site is reached."""
+    name = "empty"
+    examples = {"quick": 250, "thorough": 4000}
+    floors = {"unreached": 0.2, "reached": 0.2}
+
+    def strategy(self, tier):
+        return st.fixed_dictionaries({
+            "site": st.sampled_from(EMPTY_SITES),
+            "guard": st.sampled_from(["True", "False", "flag", "not flag",
+                                      None]),
+            "flag": st.booleans(),
+            "lead": st.sampled_from(["", "\n", "é日本\n  ", "<!-- c -->\n\n",
+                                     "<i>${1 + 1}</i>"]),
+            "tail": st.sampled_from(["", "<b>${2 + 2}</b>", "\n"]),
+            # how the two modes are obtained: constructor option, class
+            # attribute, or two loaders over one directory (the file is
+            # loaded by both, in either order, in one process)
+            "via": st.sampled_from(["option", "option", "class",
+                                    "loaders_strict_first",
+                                    "loaders_lenient_first",
+                                    "load_strict_first",
+                                    "load_lenient_first"]),
+            "renders": st.integers(1, 2),
+        })
+
+    def both(self, case, src):
+        """(outcome of strict construction/compilation, outcome of
+        non-strict construction)"""
+        import shutil
+        import tempfile
+        from chameleon import PageTemplateFile, PageTemplateLoader
+        via = case["via"]
+        if not via.startswith("load"):
+            return run(make, src, True, via), run(make, src, False, via)
+        tmp = tempfile.mkdtemp(prefix="c19-")
+        self._tmp = tmp
+        with open(os.path.join(tmp, "page.pt"), "w", encoding="utf-8") as f:
+            f.write(src)
+        with open(os.path.join(tmp, "parent.pt"), "w") as f:
+            f.write('<x metal:use-macro="load: page.pt" />')
+
+        def get(strict):
+            if via.startswith("loaders"):
+                t = PageTemplateLoader(tmp, strict=strict).load("page.pt")
+                t.cook_check()
+                return t
+            t = PageTemplateFile(os.path.join(tmp, "parent.pt"),
+                                 strict=strict)
+            if strict:
+                t.render(flag=case["flag"])
+            return t
+        if via.endswith("strict_first"):
+            a = run(get, True)
+            b = run(get, False)
+        else:
+            b = run(get, False)
+            a = run(get, True)
+        return a, b
+
+    def reached(self, case):
+        g = case["guard"]
+        if g is None or g == "True":
+            return True
+        if g == "False":
+            return False
+        return case["flag"] if g == "flag" else not case["flag"]
+
+    def labels(self, case):
+        yield "reached" if self.reached(case) else "unreached"
+
+    def nontrivial(self, case):
+        return True
+
+    def source(self, case):
+        inner = case["site"]
+        if case["guard"] is not None:
+            inner = '<tal:g condition="%s">%s</tal:g>' % (case["guard"],
+                                                            inner)
+        return "<div>" + case["lead"] + inner + case["tail"] + "</div>"
+
+    def sample(self, case):
+        return {"source": self.source(case), "flag": case["flag"]}
+
+    def oracle(self, case):
+        from chameleon.exc import ExpressionError
+        src = self.source(case)
+        detail = {"source": src, "flag": case["flag"], "via": case["via"]}
+        self._tmp = None
+        try:
+            return self._oracle(case, src, detail)
+        finally:
+            if self._tmp:
+                import shutil
+                shutil.rmtree(self._tmp, ignore_errors=True)
+
+    def _oracle(self, case, src, detail):
+        from chameleon.exc import ExpressionError
+        o, lenient = self.both(case, src)
+        if o.ok:
+            return Mismatch("empty:strict accepted an empty expression",
+                            detail)
+        if not isinstance(o.exc, ExpressionError):
+            return Mismatch("empty:strict raises " + o.exc_name,
+                            dict(detail, outcome=o.brief()))
+        strict = o.exc
+        want = (str(strict.token), strict.offset, tuple(strict.location),
+                strict.args[0] if strict.args else None)
+        site_at = src.index(case["site"])
+        if not (site_at <= strict.offset <= site_at + len(case["site"])):
+            return Mismatch("empty:strict error points outside the site",
+                            dict(detail, offset=strict.offset))
+        o = lenient
+        if not o.ok:
+            return Mismatch("empty:non-strict construction raises " +
+                            o.exc_name, dict(detail, outcome=o.brief()))
+        t = o.value
+        for r in range(case["renders"]):
+            o = run(t.render, flag=case["flag"])
+            if not self.reached(case):
+                exp = "<div>" + case["lead"].replace(
+                    "${1 + 1}", "2") + case["tail"].replace(
+                        "${2 + 2}", "4") + "</div>"
+                if not o.ok or o.value != exp:
+                    return Mismatch(
+                        "empty:unreached site disturbs the rendering",
+                        dict(detail, expected=exp, got=o.value if o.ok
+                             else o.brief()))
+                continue
+            if o.ok:
+                return Mismatch("empty:reached site renders", dict(
+                    detail, got=o.value))
+            if not isinstance(o.exc, ExpressionError):
+                return Mismatch("empty:non-strict rendering raises " +
+                                o.exc_name, dict(detail, outcome=o.brief()))
+            got = (str(o.exc.token), o.exc.offset, tuple(o.exc.location),
+                   o.exc.args[0] if o.exc.args else None)
+            if got != want:
+                return Mismatch("empty:not the error of strict mode", dict(
+                    detail, strict=list(want), non_strict=list(got)))
+        return None
+
+
 CHECK = Check(
     "C19", "exploration",
     rule=("valid: TALES-rich templates rendered under strict=True and "
@@ -562,8 +725,11 @@ CHECK = Check(
           "planted: templates with 1..3 uniquely marked invalid expressions "
           "at random expression sites (whole expression, or a later pipe "
           "alternative), non-trivial = the bindings do NOT reach any planted "
-          "site; distinct by sha1"),
-    parts=[Valid(), Planted(), CodeBlocks()],
+          "site; distinct by sha1; empty: 16 sites whose expression is "
+          "invalid for want of any text x guards (constant / variable "
+          "conditions) x leading text, strict vs non-strict, 1..2 "
+          "renderings"),
+    parts=[Valid(), Planted(), CodeBlocks(), Empty()],
     assumptions=[
         "which of several planted sites strict compilation reports is not "
         "asserted (compilation order is not document order)",
